@@ -93,6 +93,17 @@ def InVal.get (v : InVal) : Attr → Int
 
 def InVal.obj (v : InVal) : Obj := ⟨0, v.wavelength, v.stokes, v.grid⟩
 
+/-- What a call is *seen* to do with the wavefront object it was given (for the behavioural tie; the
+harness records the same events on the running code with an instrumented `Wavefront`). -/
+inductive Touch where
+  /-- `.copy()` called on the input object itself -/
+  | copyInput
+  /-- a new `Wavefront` constructed around the very array of the input -/
+  | wrapInput
+  /-- an attribute of the input object assigned -/
+  | write (a : Attr)
+  deriving DecidableEq, Repr
+
 /-- The store. Functions rather than arrays: "unchanged at 0" is then a one-line fact. -/
 structure St where
   env : Var → Nat
@@ -103,6 +114,9 @@ structure St where
   nBuf : Nat
   /-- attribute writes on the input object, most recent first (for the behavioural tie) -/
   writes : List Attr
+  /-- everything done to the input object, most recent first: copies of it, wavefronts wrapped around
+      its array, attribute writes (for the behavioural tie) -/
+  touches : List Touch
 
 def upd {α} (f : Nat → α) (k : Nat) (v : α) : Nat → α := fun i => if i = k then v else f i
 
@@ -110,7 +124,7 @@ def upd {α} (f : Nat → α) (k : Nat) (v : α) : Nat → α := fun i => if i =
 for the checker: it is treated as the input itself). -/
 def init (v : InVal) : St :=
   { env := fun _ => 0, objs := fun _ => v.obj, bufs := fun _ => v.field, slots := fun _ => 0,
-    nObj := 1, nBuf := 1, writes := [] }
+    nObj := 1, nBuf := 1, writes := [], touches := [] }
 
 def bufOf (c : St) (x : Var) : Nat := (c.objs (c.env x)).buf
 def contents (c : St) (x : Var) : Int := c.bufs (bufOf c x)
@@ -121,11 +135,13 @@ def step (sem : Nat → List Int → Int) (c : St) : Instr → St
     { c with env := upd c.env d c.nObj,
              objs := upd c.objs c.nObj { c.objs (c.env s) with buf := c.nBuf },
              bufs := upd c.bufs c.nBuf (contents c s),
-             nObj := c.nObj + 1, nBuf := c.nBuf + 1 }
+             nObj := c.nObj + 1, nBuf := c.nBuf + 1,
+             touches := if c.env s = 0 then .copyInput :: c.touches else c.touches }
   | .wrap d s =>
     { c with env := upd c.env d c.nObj,
              objs := upd c.objs c.nObj (c.objs (c.env s)),
-             nObj := c.nObj + 1 }
+             nObj := c.nObj + 1,
+             touches := if bufOf c s = 0 then .wrapInput :: c.touches else c.touches }
   | .newFrom d op args like =>
     { c with env := upd c.env d c.nObj,
              objs := upd c.objs c.nObj { c.objs (c.env like) with buf := c.nBuf },
@@ -141,10 +157,12 @@ def step (sem : Nat → List Int → Int) (c : St) : Instr → St
   | .saveAttr slot s a => { c with slots := upd c.slots slot ((c.objs (c.env s)).get a) }
   | .setAttrConst t a v =>
     { c with objs := upd c.objs (c.env t) ((c.objs (c.env t)).set a v),
-             writes := if c.env t = 0 then a :: c.writes else c.writes }
+             writes := if c.env t = 0 then a :: c.writes else c.writes,
+             touches := if c.env t = 0 then .write a :: c.touches else c.touches }
   | .setAttrSlot t a slot =>
     { c with objs := upd c.objs (c.env t) ((c.objs (c.env t)).set a (c.slots slot)),
-             writes := if c.env t = 0 then a :: c.writes else c.writes }
+             writes := if c.env t = 0 then a :: c.writes else c.writes,
+             touches := if c.env t = 0 then .write a :: c.touches else c.touches }
   | .inplaceAttr _ _ _ => c
   | .copyAttr _ _ => c
 
@@ -160,13 +178,17 @@ structure Outcome where
   retIsInput : Bool
   retSharesBuf : Bool
   writes : List Attr
+  /-- copies of / wrappers around / attribute writes on the input object, in program order -/
+  touches : List Touch
+  /-- number of wavefront objects the call created -/
+  created : Nat
 
 def call (sem : Nat → List Int → Int) (p : Prog) (v : InVal) : Outcome :=
   let c := exec sem (init v) p.body
   { result := (contents c p.ret, { c.objs (c.env p.ret) with buf := 0 }),
     inputField := c.bufs 0, inputObj := c.objs 0,
     retIsInput := c.env p.ret == 0, retSharesBuf := bufOf c p.ret == 0,
-    writes := c.writes.reverse }
+    writes := c.writes.reverse, touches := c.touches.reverse, created := c.nObj - 1 }
 
 /-! ## The static checker -/
 
